@@ -66,6 +66,8 @@ def main():
                 errs.append(pid)
             if rr.returncode and pid == target:
                 details = [l for l in rr.stdout.splitlines() if 'rule ' in l or 'ANALYSIS-ERROR' in l][:4]
+            elif rr.returncode and '--details' in sys.argv:
+                details += [pid + ' ' + l.strip() for l in rr.stdout.splitlines() if 'rule ' in l or 'ANALYSIS-ERROR' in l][:2]
         sh('git', '-C', SCRATCH, 'checkout', '--', '.')
         status = 'CAUGHT' if target in fired else ('ERROR ' if target in errs else 'MISSED')
         if status != 'CAUGHT':
